@@ -51,7 +51,7 @@ class LineWriter(object):
                 v = bytes(v)
             if v is not None and not isinstance(v, _reprable):
                 raise TypeError(type(v))
-            self._dbfile.write(("\t%s=%r" % (k, v)).encode("latin1"))
+            self._dbfile.write(("\t%s=%r" % (k, v)).encode("utf8"))
         self._dbfile.write(b("\n"))
 
 
@@ -91,7 +91,7 @@ class LineReader(object):
                 return
 
     def _parse_line(self, line):
-        line = line.decode("latin1")
+        line = line.decode("utf8")
         line = line.rstrip()
         l = len(line)
         line = line.lstrip()
